@@ -31,6 +31,9 @@ type LateJob struct {
 	Start     uint16 `json:"start"`
 	N         int    `json:"packets"`
 	Join      int    `json:"join_after"` // number of packets written before the reader joins
+	// Active: which of the media's two formats carries the packets (the other one stays idle, so the two
+	// SSRCs of the MIKEY message have different roll-over counters after the wrap)
+	Active int `json:"active_format"`
 }
 
 func lateJobs(thorough bool) []Job {
@@ -44,7 +47,9 @@ func lateJobs(thorough bool) []Job {
 	for _, tr := range []string{"udp", "tcp", "tcp-frames"} {
 		for _, s := range starts {
 			for j := 0; j <= n; j++ {
-				out = append(out, Job{Late: &LateJob{Transport: tr, Start: s, N: n, Join: j}})
+				for a := 0; a < 2; a++ {
+					out = append(out, Job{Late: &LateJob{Transport: tr, Start: s, N: n, Join: j, Active: a}})
+				}
 			}
 		}
 	}
@@ -96,7 +101,7 @@ func runLate(job LateJob) (out JobOut) {
 	seq := job.Start
 	written := 0
 	write := func() error {
-		p := &rtp.Packet{Header: rtp.Header{Version: 2, PayloadType: 97, SequenceNumber: seq, Timestamp: uint32(written) * 960, SSRC: 0x01020304}, Payload: pattern(written)}
+		p := &rtp.Packet{Header: rtp.Header{Version: 2, PayloadType: mainFormats()[job.Active].PayloadType(), SequenceNumber: seq, Timestamp: uint32(written) * 960, SSRC: 0x01020304}, Payload: pattern(written)}
 		seq++
 		written++
 		return app.Stream.WritePacketRTP(media, p)
@@ -197,7 +202,7 @@ func runLate(job LateJob) (out JobOut) {
 		}
 	}
 	out.Evals = 1
-	out.Nontrivial = []string{fmt.Sprintf("late/%s/start-%d/join-%d", job.Transport, job.Start, job.Join)}
+	out.Nontrivial = []string{fmt.Sprintf("late/%s/start-%d/join-%d/active-%d", job.Transport, job.Start, job.Join, job.Active)}
 	mu.Lock()
 	defer mu.Unlock()
 	missing, wrong := []uint16{}, []uint16{}
